@@ -23,7 +23,10 @@ META = {
         '(history) calculate, compile, to_dict, finish and from_dict - with '
         'everything they reach through self and the helpers of their module - '
         'never read a dispatcher\'s stored `solution`, i.e. the values an '
-        'earlier calculation left behind.'),
+        'earlier calculation left behind; (pair) the range assembler and its '
+        'inverse pair values with node ids by position, both sides taking the '
+        'order from the same ordered attribute - what makes an override of a '
+        'range or name equal to overriding the underlying cells.'),
     'not_decided': (
         'That dependents are recomputed, that values equal those of a fresh '
         'model, output restriction, and effects hidden inside schedula.'),
@@ -435,5 +438,20 @@ def rule_names(ctx):
 
 def run(ctx):
     from .modelstate import rule_history
+    from .c03 import rule_pair
+    # overriding a range or a name reaches the underlying cells through the
+    # assemblers' positional protocols: same rule as C03.pair
+    pr = rule_pair(ctx)
+    pr.prop, pr.rule = 'C07', 'C07.pair'
+    keep = ('assembler', 'inverse')
+    pr.obligations = [o for o in pr.obligations
+                      if any(k in o.what.lower() for k in keep)]
+    pr.findings = [f_ for f_ in pr.findings
+                   if any(k in f_.key.lower() for k in keep)]
+    for f_ in pr.findings:
+        f_.prop, f_.rule = 'C07', 'C07.pair'
+    for o in pr.obligations:
+        o.rule = 'C07.pair'
+    pr.instances, pr.floor = max(1, len(pr.obligations)), 1
     return [rule_nomut(ctx), rule_cache(ctx), rule_paths(ctx), rule_names(ctx),
-            rule_history(ctx, 'C07', 'C07.history')]
+            rule_history(ctx, 'C07', 'C07.history'), pr]
